@@ -1,3 +1,3 @@
 Require Import ExtrOcamlBasic.
-Require Import V.C18.Model.
+Require Import V.C18.Disp.
 Extraction "model.ml" run_case.
